@@ -269,6 +269,15 @@ def r6(ctx, prog):
         ctx.saw(dm)
         dv = A.View(prog, dm)
         ix = dv.calls(r"ops::IndexMut<I>>::index_mut$|slice::<impl \[T\]>::get_mut$")
-        got = [(A.norm(M.render(A.positional(M.peel(dv.pv.of_operand(t["args"][0]))))), A.norm(M.render(A.positional(M.peel(dv.pv.of_operand(t["args"][1]), casts=True))))) for _, t in ix]
-        ok = any(a == "$2.solutions" and re.search(r"\.solution_index$", b) for a, b in got)
+        got = []
+        ok = False
+        for _, t in ix:
+            a = A.norm(M.render(A.positional(M.peel(dv.pv.of_operand(t["args"][0])))))
+            x = M.peel(dv.pv.of_operand(t["args"][1]), casts=True)
+            b = A.norm(M.render(A.positional(x)))
+            got.append((a, b))
+            # the index is the u16 field of the DataFromSolution element being decoded (identified by type, not by name)
+            if a == "$2.solutions" and x.kind == "field" and isinstance(x.meta, dict) and str(x.meta.get("of", "")).endswith("::DataFromSolution") and x.meta.get("ty") == "u16" \
+                    and re.search(r"Iterator>::next\(.*into_iter\(\$1\.\w+\)\) as Some\)\.0\.\w+$", b):
+                ok = True
         ctx.ob("R6", "computed-mutations-go-to-the-solution-named-by-the-output", ok, dm.loc(ix[0][0]) if ix else dm.loc(0), "indexing %s" % [(a, b[-60:]) for a, b in got], dm)
